@@ -28,7 +28,7 @@ NOT_MODELLED = ("alias names and windows reaching into the history have no Coq m
                 "negated alias = negated answer, stored history unchanged); constant inputs / parameters through state_at, integrate_states")
 ASSUMPTIONS = ["histories contain no NaN in this check"]
 
-FEAT = {"history": True, "own_grid": True}
+FEAT = {"history": True, "own_grid": True, "modes": True}
 
 
 def gen_queries(rng, s):
@@ -49,7 +49,8 @@ def gen_queries(rng, s):
                 i = rng.randrange(len(vt) - 1)
                 return vt[i] + (vt[i + 1] - vt[i]) * Fraction(rng.randint(1, 7), 8)
             if r < 0.85:
-                return vt[0] - Fraction(rng.randint(1, 12), 4)
+                # before t0: also strictly between two history knots
+                return vt[0] - Fraction(rng.randint(1, 12), rng.choice([4, 4, 8, 3]))
             return vt[-1] + Fraction(rng.randint(1, 8), 4)
         kind = rng.choice(["state_at", "state_at", "der_at", "integral", "states_in"])
         if kind == "state_at":
